@@ -139,9 +139,13 @@ type regBackend struct {
 	u     *regUniverse
 	hits  int64
 	files map[int]*Fixture
+	delay atomic.Int64 // artificial latency of every reflection answer
 }
 
 func (b *regBackend) GetServiceInfo() map[string]grpc.ServiceInfo {
+	if d := b.delay.Load(); d > 0 {
+		time.Sleep(time.Duration(d))
+	}
 	out := map[string]grpc.ServiceInfo{}
 	mask := int(b.mask.Load())
 	for i, svc := range b.u.svcs {
@@ -186,6 +190,9 @@ func newRegBackend(u *regUniverse, idx int) (*regBackend, error) {
 	b.cc, err = grpc.NewClient(lis.Addr().String(), grpc.WithTransportCredentials(insecure.NewCredentials()))
 	return b, err
 }
+
+func listenLocal() (net.Listener, error) { return net.Listen("tcp", "127.0.0.1:0") }
+func grpcInsecure() grpc.DialOption      { return grpc.WithTransportCredentials(insecure.NewCredentials()) }
 
 func (b *regBackend) close() {
 	b.cc.Close()
